@@ -366,6 +366,9 @@ func c20(c *wk.Ctx) {
 		}
 		r.Violationf("C20|outcome=process-aborted", nil, "GetSlotState ended the process (exit %d): %s", d.Result.Exit, firstPanicLine(d.Result.Stderr))
 	}
+	if wk.ReplayOne(c, "c20cases", nil, onDeath) {
+		return
+	}
 	n := c.N(160, 1600)
 	parts := c.N(4, 16)
 	wk.Parallel(parts, 4, func(p int) {
